@@ -336,6 +336,7 @@ func genC16(t *rapid.T, shape plonkShape, realOpenings bool) c16Case {
 
 func TestC16(t *testing.T) {
 	s := newSuite("C16")
+	compiledEvery = 0 // the PLONK check is exercised on compiled systems through the whole verifier (C02, C01)
 	r := s.r
 	defer r.Flush()
 	r.Rule("opening sets and challenges over GF(p^2) shaped by (a) the two real circuit descriptions (real openings with some wires re-drawn, or fully random openings) and (b) synthetic descriptions (1..3 challenge rounds, routed wires = chunks x quotient degree factor with factor 1..8 up to 80 wires, 2..6 gates from the parameterised gate grammar in 1..3 selector groups, degree bits 2..14, random coset shifts); quotient chunk 0 of every round is solved with the reference so that the identity holds (must ACCEPT); then one opening coordinate (constants, sigmas, wires, Zs, next Zs, partial products, quotient chunks), one challenge (beta, gamma, alpha, zeta) or the public-input hash is changed (must agree with the reference, which rejects).  The export hook evalVanishingPoly is compared value-by-value on random inputs.  Non-trivial = every case; distinct = full case.")
